@@ -283,7 +283,7 @@ def c16(pid, tier, replay):
 
 # ---------------------------------------------------------------- C05 ----
 COR_PKGS = {"internal/corerad": ["common/vf_util.go", "common/vf_ra.go", "corerad/vf_world.go", "corerad/vf_adv.go",
-                                 "corerad/vf_mdelay.go"],
+                                 "corerad/vf_mdelay.go", "corerad/vf_verify.go"],
             "internal/system": ["system/vf_export.go"]}
 
 
@@ -407,3 +407,114 @@ def validate_vectors_consts(tmp, outs, lines_per_batch=6000):
         for pr in ex.map(one, batches):
             viols += pr
     return viols, rows
+
+
+# ---------------------------------------------------------------- C12 ----
+def _ra(**kw):
+    base = {"hl": 64, "m": False, "o": False, "rpref": "medium", "life": 1800, "reach": 0, "retrans": 0, "opts": []}
+    base.update(kw)
+    return base
+
+
+C12_ASPECTS = {
+    "hl": [{"hl": 64}, {"hl": 65}, {"hl": 0}],
+    "m": [{"m": False}, {"m": True}],
+    "o": [{"o": False}, {"o": True}],
+    "reach": [{"reach": 0}, {"reach": 1000}, {"reach": 2000}],
+    "retrans": [{"retrans": 0}, {"retrans": 1000}, {"retrans": 2000}],
+    "life": [{"life": 1800}, {"life": 0}, {"life": 600}],
+    "rpref": [{"rpref": "medium"}, {"rpref": "high"}],
+}
+_P = lambda pfx, valid=86400, pref=14400: {"k": "prefix", "pfx": pfx, "valid": valid, "pref": pref, "onlink": True, "auto": True}
+_R = lambda pfx, pref="medium", life=86400: {"k": "route", "pfx": pfx, "pref": pref, "life": life}
+_D = lambda life, servers: {"k": "rdnss", "life": life, "servers": servers}
+_S = lambda life, names: {"k": "dnssl", "life": life, "names": names}
+C12_OPTS = {
+    "mtu": [[], [{"k": "mtu", "mtu": 1500}], [{"k": "mtu", "mtu": 1280}]],
+    "cp": [[], [{"k": "cp", "uri": "https://a.example/portal"}], [{"k": "cp", "uri": "https://b.example/portal"}]],
+    "prefix": [[], [_P("2001:db8::/64")], [_P("2001:db8::/64", 7200, 3600)], [_P("2001:db8::/64", 86400, 3600)], [_P("2001:db8:1::/64")],
+               [_P("2001:db8::/64"), _P("2001:db8:1::/64", 7200, 3600)], [_P("2001:db8::/64", 7200, 3600), _P("2001:db8::/64")],
+               [_P("2001:db8::/64", -1, -1)], [_P("2001:db8::/56")]],
+    "route": [[], [_R("2001:db8:f::/48")], [_R("2001:db8:f::/48", "medium", 3600)], [_R("2001:db8:f::/48", "high", 3600)],
+              [_R("2001:db8:e::/48")], [_R("2001:db8:f::/48"), _R("2001:db8:e::/48", "low", 600)],
+              [_R("2001:db8:f::/48", "medium", 3600), _R("2001:db8:f::/48", "medium", 86400)], [_R("2001:db8:f::/64")]],
+    "rdnss": [[], [_D(1800, ["2001:db8::53"])], [_D(600, ["2001:db8::53"])], [_D(1800, ["2001:db8::54"])],
+              [_D(1800, ["2001:db8::53", "2001:db8::54"])], [_D(1800, ["2001:db8::53"]), _D(1800, ["2001:db8::54"])],
+              [_D(1800, ["2001:db8::54"]), _D(600, ["2001:db8::53"])]],
+    "dnssl": [[], [_S(1800, ["a.example"])], [_S(600, ["a.example"])], [_S(1800, ["b.example"])],
+              [_S(1800, ["a.example", "b.example"])], [_S(1800, ["a.example"]), _S(1800, ["b.example"])]],
+}
+
+
+def c12_vectors(pid, tier, rng, tmp):
+    thorough = tier == "thorough"
+    vecs = []
+
+    def add(own, theirs, tag):
+        for wire in (False, True):
+            vecs.append({"kind": "c12", "id": "c12-%s-%05d-%s" % (tag, len(vecs), "w" if wire else "s"),
+                         "in": {"own": own, "theirs": theirs, "wire": wire, "selfwire": False}})
+    common = [{"k": "lla", "addr": "02:00:00:00:00:01"}]
+    # per aspect, exhaustive on both sides
+    for name, vals in C12_ASPECTS.items():
+        for a in vals:
+            for b in vals:
+                add(_ra(opts=common, **a), _ra(opts=[], **b), "hdr-" + name)
+    for name, vals in C12_OPTS.items():
+        for a in vals:
+            for b in vals:
+                add(_ra(opts=a + common), _ra(opts=list(b)), "opt-" + name)
+    # pairwise across aspects (merge order, independence)
+    names = list(C12_OPTS)
+    for i, n1 in enumerate(names):
+        for n2 in names[i + 1:]:
+            for a1 in C12_OPTS[n1][:4]:
+                for b1 in C12_OPTS[n1][:4]:
+                    a2, b2 = rng.choice(C12_OPTS[n2]), rng.choice(C12_OPTS[n2])
+                    add(_ra(opts=a1 + a2), _ra(opts=b2 + b1, hl=rng.choice([64, 64, 65])), "pair-%s-%s" % (n1, n2))
+    # random larger RAs and self round trips
+    def rand_ra():
+        opts = []
+        for n, vals in C12_OPTS.items():
+            opts += rng.choice(vals)
+        rng.shuffle(opts)
+        hdr = {}
+        for n, vals in C12_ASPECTS.items():
+            hdr.update(rng.choice(vals))
+        return _ra(opts=opts, **hdr)
+    for j in range(6000 if thorough else 600):
+        add(rand_ra(), rand_ra(), "rand")
+    def nodup(ra):
+        seen = set()
+        for o in ra["opts"]:
+            if o["k"] in ("prefix", "route"):
+                if (o["k"], o["pfx"]) in seen:
+                    return False
+                seen.add((o["k"], o["pfx"]))
+        return True
+    for j in range(2000 if thorough else 300):
+        own = rand_ra()
+        while not nodup(own):       # an accepted configuration never repeats a prefix or route
+            own = rand_ra()
+        vecs.append({"kind": "c12", "id": "c12-self-%05d" % j, "in": {"own": own, "theirs": own, "wire": True, "selfwire": True}})
+    # spec-level lemmas over a small domain
+    return [], vecs
+
+
+def c12(pid, tier, replay):
+    return vec_check(pid, tier, replay, c12_vectors,
+                     lambda v: v["in"]["own"] != v["in"]["theirs"],
+                     "vectors = for every header field and option kind the full {absent, v1, v2, ...} x {absent, v1, v2, ...} "
+                     "cross of own and received values (both orders), pairwise products across option kinds, random larger RAs, "
+                     "each with the received RA as distinct structs and after a wire round trip, plus own RAs compared with their "
+                     "own round trip; every vector goes through verifyRAs and through Advertiser.handle (counters, log, hook); "
+                     "non-trivial = own and received differ",
+                     ["the 'own' RA is produced by a config.Interface whose plugin list is a harness plugin appending the scripted options",
+                      "route prefixes use byte-aligned lengths (the pinned ndp decoder drops a trailing partial byte)",
+                      "TLC evaluates Problems(own, theirs) (spec/Verify.tla) on the RAs as the code saw them; no separate exhaustive model run: states/transitions count the validation runs"],
+                     pkgs=COR_PKGS12, pkgdir="internal/corerad", testname="^TestVF_Verify$", module="VerifyTrace")
+
+
+COR_PKGS12 = {"internal/corerad": ["common/vf_util.go", "common/vf_ra.go", "corerad/vf_world.go", "corerad/vf_adv.go",
+                                   "corerad/vf_mdelay.go", "corerad/vf_verify.go"],
+              "internal/system": ["system/vf_export.go"]}
